@@ -24,4 +24,5 @@ PROPERTIES
   QueriesReadOnly
   NeverForeignRead
   AckedReadBack
+  BackfillReportsPostGaps
 CHECK_DEADLOCK FALSE
